@@ -254,7 +254,7 @@ func genHelpNode(r *rand.Rand, name string, depth int, parent *hNode, version bo
 				def = "true"
 			}
 		case 1:
-			v := []string{"", "str", "with space", "q\"uote", "50%", "%d %s", "a\\b"}[r.Intn(7)] // shown %q-quoted, verbatim otherwise
+			v := []string{"", "str", "with space", "q\"uote", "50%", "%d %s", "a\\b", " ", "\t"}[r.Intn(9)] // shown %q-quoted, verbatim otherwise
 			decls = append(decls, func(c *cli.Cmd) { c.String(cli.StringOpt{Name: name, Desc: d, EnvVar: e, Value: v, HideValue: hide}) })
 			if v != "" {
 				def = fmt.Sprintf("%q", v)
@@ -268,7 +268,7 @@ func genHelpNode(r *rand.Rand, name string, depth int, parent *hNode, version bo
 			decls = append(decls, func(c *cli.Cmd) { c.Float64(cli.Float64Opt{Name: name, Desc: d, EnvVar: e, Value: v, HideValue: hide}) })
 			def = fmt.Sprintf("%v", v)
 		case 4:
-			v := [][]string{nil, {}, {"a"}, {"a", "b c"}, {"100%", "%v"}}[r.Intn(5)]
+			v := [][]string{nil, {}, {"a"}, {"a", "b c"}, {"100%", "%v"}, {"C:\\tmp", "say \"hi\"", "tab\there"}, {" "}}[r.Intn(7)]
 			decls = append(decls, func(c *cli.Cmd) { c.Strings(cli.StringsOpt{Name: name, Desc: d, EnvVar: e, Value: v, HideValue: hide}) })
 			if len(v) > 0 {
 				var q []string
